@@ -607,6 +607,68 @@ REG['Pt34'] = Pt34
 REG['P34'] = P34
 """, {"P34": lambda ch, u: u.bytes(3)})
 
+# 35  layouts decided by field VALUES, possibly backwards (docs/reference/11: `.at(field)`, negative `.shift`): the field
+#     packed last is then not the one lying furthest, and the packets have holes; whatever buffers serialisation keeps
+#     between calls, one packet's bytes must never show through another packet's holes
+def _sec35(ch, u):
+    offs = [(2, 5), (2, 9), (6, 2), (9, 2), (4, 7), (8, 3), (2, 4), (7, 4)][ch.draw("offsets", 8)]
+    buf = bytearray(b"." * (max(offs) + 2))
+    buf[0], buf[1] = offs
+    buf[offs[0]:offs[0] + 2] = u.bytes(2)
+    buf[offs[1]:offs[1] + 2] = u.bytes(2)
+    return bytes(buf)
+
+
+decl("sections", """
+class S35(Packet):
+    __bisturi__ = OPT
+    off_a = Int(1, default=2)
+    off_b = Int(1, default=6)
+    a = Data(2).at(off_a)
+    b = Data(2).at(off_b)
+
+class B35(Packet):
+    __bisturi__ = OPT
+    i = Int(1).at(4)
+    d = Data(4).shift(-4 - 1)
+
+class G35(Packet):
+    __bisturi__ = OPT
+    k = Int(1)
+    body = Data(2).at(6)
+    tail = Int(1).aligned(4)
+REG['S35'] = S35
+REG['B35'] = B35
+REG['G35'] = G35
+""", {"S35": _sec35,
+      "B35": lambda ch, u: u.bytes(4) + _b(u.byte()),
+      "G35": lambda ch, u: _b(u.byte()) + b"." * 5 + u.bytes(2) + _b(u.byte())})
+
+# 36  one chooses-table of field instances shared by the Refs of two classes whose options differ (endianness): whatever
+#     a table entry learns when it is first used must not depend on which class used it first
+def _sh36(ch, u):
+    k = 1 + ch.draw("kind", 3)
+    return _b(k) + (u.bytes([2, 4, 3][k - 1]) if k != 3 else u.bytes(2) + b";") + _b(u.byte())
+
+
+decl("sharedtable", """
+SIZES36 = {1: Int(2), 2: Int(4), 3: Data(until_marker=b';')}
+
+class Big36(Packet):
+    __bisturi__ = OPT
+    kind = Int(1, default=1)
+    value = Ref(kind.chooses(SIZES36), default=0)
+    t = Int(1)
+
+class Little36(Packet):
+    __bisturi__ = dict(OPT, endianness='little')
+    kind = Int(1, default=1)
+    value = Ref(kind.chooses(SIZES36), default=0)
+    t = Int(1)
+REG['Big36'] = Big36
+REG['Little36'] = Little36
+""", {"Big36": _sh36, "Little36": _sh36})
+
 
 BY_NAME = {d["name"]: d for d in POOL}
 
